@@ -60,7 +60,7 @@ def gen_item(rng):
             a, b = rng.sample(names, 2)
             table.append([ann[a], ann[b], rng.choice(vals)])
     rng.shuffle(table)
-    return {'label': label, 'heuristic': heuristic, 'order': order, 'table': table}
+    return {'label': label, 'heuristic': heuristic, 'order': order, 'table': table, 'tldr': rng.choice(['True', 'True', 'False', False])}
 
 
 def record(it, ob):
